@@ -4,7 +4,7 @@
 import Mb2.Build
 import Mb2.Props.C06
 import Mb2.Props.C10
-import Mb2.Props.C07
+import Mb2.Props.C07Parts
 import Mb2.HTags
 namespace Mb2.C12
 open Mb2
